@@ -364,7 +364,7 @@ INT_INTERESTING = {
     "Int64": [-(2**63), 2**63 - 1],
     "UInt64": [0, 2**64 - 1],
 }
-STRINGS = ["", "a", "ab", "hello", "abcdefg", "abcdefgh", "x" * 15, "x" * 16, "héllo", "日本", "ß∂ƒ©", "é" * 4, "emoji🙂", "tab\there"]
+STRINGS = ["", "a", "ab", "hello", "abcdefg", "abcdefgh", "x" * 15, "x" * 16, "héllo", "日本", "ß∂ƒ©", "é" * 4, "emoji🙂", "tab\there", "a\x00b", "nul\x00in\x00side"]
 
 
 def gen_scalar(rng, tname):
